@@ -149,6 +149,11 @@ func (w *Whisper) openAndLockFile(filename string) error {
 // will be lost without calling Sync.
 // For the file created with WithInMemory, this is a no-op.
 func (w *Whisper) Sync() error {
+	if w.openFileFlag&(os.O_WRONLY|os.O_RDWR) == 0 {
+		// Nothing can be written through a read-only descriptor, and
+		// the file buffer does not report the failed writes.
+		return fmt.Errorf("sync: %s: file is not opened for writing", w.file.Name())
+	}
 	if err := w.fileBuf.Flush(); err != nil {
 		return err
 	}
